@@ -92,7 +92,17 @@ func (x *Exec) exchange(c *Client, raw []byte, method int, emits []emit, dels []
 	x.settle()
 	x.waitCallbacks()
 	o := x.observe()
-	x.checkWire(o, []*reqInfo{rq}, emits, dels, ctx)
+	if len(x.extraReq) > 0 {
+		x.slept = true // the pipelined request changed state as well: no before/after comparison for this one
+	}
+	reqs := append([]*reqInfo{rq}, x.extraReq...)
+	x.checkWire(o, reqs, emits, dels, ctx)
+	for _, e := range x.extraReq {
+		if !x.stop && (e.resp == nil || e.resp.Class != ref.ClassSuccess) {
+			x.fail([]string{"C06", "C19"}, "pipelined-refresh-refused", "%s: the Refresh(0) sent just before it was answered with %s", ctx, respDesc(e.resp))
+		}
+	}
+	x.extraReq = nil
 
 	return rq
 }
@@ -299,6 +309,23 @@ func (x *Exec) authExchange(c *Client, ui int, m *ref.Msg, st *Step, method int,
 func (x *Exec) opAllocate(st *Step) { //nolint:cyclop,gocyclo,maintidx
 	c := x.client(st.C)
 	ui := x.userIdx(c, st)
+	if st.Rel == "after-refresh0" && st.Defect == "" && !c.Stream && !st.Retx && st.TxFrom == 0 && x.w.cfg.CallbackSleepS == 0 {
+		// pipelined: a Refresh(0) and, without waiting for its answer, a new Allocate. The server
+		// handles them in order, so the outcome is that of the sequential history; what differs is
+		// that the old allocation's teardown is still under way when the new one is made.
+		nonceMinutes := time.Now().Unix()/60 - c.NonceAt.Unix()/60
+		if a := x.m.Allocs[c.Idx]; a != nil && a.User == Users[ui].Name && nonceMinutes < 59 {
+			rm := &ref.Msg{Method: ref.MethodRefresh, Class: ref.ClassRequest, TxID: c.nextTx()}
+			rm.Add(ref.AttrLifetime, ref.U32(0))
+			raw, _, _ := x.signed(c, ui, rm, "", 0)
+			x.purgeModel()
+			x.w.send(c, raw)
+			x.extraReq = append(x.extraReq, &reqInfo{c: c, tx: rm.TxID, method: ref.MethodRefresh})
+			x.m.remove(c.Idx)
+			c.HasAlloc = false
+			x.St.inc("refresh0-then-allocate-pipelined")
+		}
+	}
 	m := &ref.Msg{Method: ref.MethodAllocate, Class: ref.ClassRequest}
 	switch {
 	case st.Retx && c.HasAlloc:
@@ -551,7 +578,7 @@ func (x *Exec) opAllocate(st *Step) { //nolint:cyclop,gocyclo,maintidx
 		}
 	}
 	if a.RelaySock == nil && a.RelayLis == nil {
-		x.fail([]string{"C19", "C20"}, "allocate-relayed-address-not-bound", "Allocate success advertises %v but no open socket bound at that address was handed out for this request", relay)
+		x.fail([]string{"C19", "C20", "C06", "C04"}, "allocate-relayed-address-not-bound", "Allocate success advertises %v but no open socket bound at that address was handed out for this request", relay)
 
 		return
 	}
